@@ -2,6 +2,8 @@ package main
 
 import (
 	"math/rand"
+	"os"
+	"strconv"
 )
 
 func allFaults(names ...string) map[string]bool {
@@ -76,6 +78,15 @@ func profileFor(prop string) *Profile {
 	}
 	if prop == "C11" {
 		p.HugeFreq = 0.08
+	}
+	switch prop {
+	case "C01", "C02", "C06", "C07", "C09", "C10", "C11", "C14", "C15", "C16", "C20":
+		p.MultiToken = 0.12
+	}
+	if v := os.Getenv("VERIF_MULTI"); v != "" { // experiments only: the share of multi-token runs
+		if f, err := strconv.ParseFloat(v, 64); err == nil {
+			p.MultiToken = f
+		}
 	}
 	// state invariants must also hold on a chain restarted from a zero-height export (F9): a minority of the runs of
 	// these profiles export and continue
@@ -197,6 +208,20 @@ func NewGen(seed int64, prop string, run int, thorough bool) *Gen {
 
 	g.useModSvcCalls = g.chance(prof.ModSvcCalls)
 	cfg.ModuleService = g.useModSvcCalls || g.chance(0.25)
+	// multi-token dimension (DESIGN §10.8): providers may publish prices in tokens other than the base denomination; the
+	// fee is then converted at the rate of the "oracle" module service's feed, which moves and fails between blocks
+	g.mrng = rand.New(rand.NewSource(rs ^ 0x6d756c7469746f6b))
+	if prof.MultiToken > 0 && g.mrng.Float64() < prof.MultiToken {
+		g.multi = true
+		cfg.MultiToken = true
+		cfg.ModuleService = true
+		cfg.Rates = map[string]string{}
+		for _, pair := range []string{"ugold-stake", "silver-stake"} {
+			if g.mrng.Float64() < 0.85 {
+				cfg.Rates[pair] = ratePool[g.mrng.Intn(len(ratePool))]
+			}
+		}
+	}
 	g.useHugeFreq = g.chance(prof.HugeFreq)
 	g.useModule = g.chance(prof.ModuleCtx)
 	g.useExpCont = prof.Faults["expcont"] && g.chance(prof.ExpContRuns)
